@@ -6,9 +6,10 @@ META = {
     "decided": [
         "07.a weekday index = (floor(JD + 0.5) + 1) mod 7 for every Julian date in range, fractions included (real index_of, multiplicative spec)",
         "07.b +1 weekday per civil day without a break at month ends, year ends or the 1582 gap: 07.a composed with 01.c (day count grows by exactly one per civil day) — paper composition",
+        "07.d the three routes agree: the sexagenary-day view stores the pillar of the lunar day of that very civil day (08.d 'day' clause, re-run here), its getter returns the stored pillar, and the civil date's view is the view built from that very day — so all three are 07.c's pillar of the lunar day the walk (C02 02.c) lands on",
         "07.c the pillar of lunar day d of a month whose first day number is X is (X + d - 1 + 49) mod 60, for every X in range and every d (engine B over the real arithmetic of LunarDay::get_sixty_cycle; names via the object model)",
     ],
-    "outside": ["that the sexagenary-day view and the civil-date route return the same pillar (they run the solar->lunar walk over the real month table)",
+    "outside": ["that the solar->lunar walk lands on the right lunar day over the REAL month table (C02 decides the walk under an abstract tiling table)",
                 "abutment of lunar months (C03's data clause), which the +1-per-day claim across lunar month boundaries rests on"],
     "assumptions": [
         "engine B object model: axioms A-index (11.d/11.a), A-name (lemma T60 + trusted first-match search of LoopTyme::new), A-format (core::fmt semantics), A-jd (01.g/next-exact); listed per kernel in the evidence",
@@ -27,4 +28,4 @@ def engine_b(tier, seed, scr):
     eng, err = engine(scr, "07.c/B/day-pillar", "07.c")
     if eng is None:
         return err
-    return [pillars.k_day_pillar(eng)]
+    return [pillars.k_day_pillar(eng), pillars.k_day_view(eng), pillars.k_pillar_route(eng, "getter"), pillars.k_pillar_route(eng, "civil")]
